@@ -145,7 +145,17 @@ func quoteH(line string) string {
 			wd, _ := os.Getwd()
 			os.Chdir(dir)
 			defer os.Chdir(wd)
-			for _, n := range []string{s, "a", "b", "ab", ".h", "x y"} {
+			// (also files named like the escaped spellings of s: the pattern that quoted text becomes is not a file name)
+			var esc1, esc2 strings.Builder
+			for _, r := range s {
+				if strings.ContainsRune("?*[\\]-!^", r) {
+					esc1.WriteByte('\\')
+				}
+				esc1.WriteRune(r)
+				esc2.WriteByte('\\')
+				esc2.WriteRune(r)
+			}
+			for _, n := range []string{s, "a", "b", "ab", ".h", "x y", esc1.String(), esc2.String(), "\\" + s, s + "\\"} {
 				if n != "" && !strings.ContainsAny(n, "/\x00") && n != "." && n != ".." {
 					os.WriteFile(n, nil, 0o644)
 				}
